@@ -7,17 +7,17 @@ WT=$1; OUT=$2; TN=${3:-seeded_demo}
 cd "$WT" || exit 2
 git checkout -q -- . ; git status --short | grep -v '^??' && { echo "worktree dirty"; exit 2; }
 DEMO=$(ls $OUT/*.rs | head -1)
-cp "$DEMO" parser/tests/$TN.rs
+TD=${TESTDIR:-parser/tests}; PKG=${PKG:-llguidance}; mkdir -p $TD; cp "$DEMO" $TD/$TN.rs
 export CARGO_NET_OFFLINE=true
 echo "== demo WITHOUT patch"
-cargo test --offline -p llguidance --test $TN 2>&1 | grep -E "^test |test result|error" | tail -8
+cargo test --offline -p $PKG --test $TN 2>&1 | grep -E "^test |test result|error" | tail -8
 R0=${PIPESTATUS[0]}
 git apply "$OUT/patch.diff" || { echo "patch does not apply"; exit 2; }
 echo "== demo WITH patch"
-cargo test --offline -p llguidance --test $TN 2>&1 | grep -E "^test |test result|error|panicked" | tail -8
+cargo test --offline -p $PKG --test $TN 2>&1 | grep -E "^test |test result|error|panicked" | tail -8
 R1=${PIPESTATUS[0]}
 echo "== baseline suite WITH patch"
-rm -f parser/tests/$TN.rs
+rm -f $TD/$TN.rs
 cargo test --workspace --no-fail-fast --offline 2>&1 | grep -E "^test .* ok$" | sort > /tmp/seed_pass.txt
 N=$(wc -l < /tmp/seed_pass.txt)
 git checkout -q -- .
